@@ -45,11 +45,12 @@ SemOK(in, argvs, exit) ==
 \* no command: what would have been the appended arguments of each invocation is one output line
 Flag(in, f) == f \in DOMAIN in /\ in[f]
 EchoLine(in, b) == Join([j \in DOMAIN b |-> Toks(in).toks[b[j]].b], <<32>>) \o <<10>>
-EchoOK(in, stdout, exit) ==
+EchoOK(in, stdout, exit, nlines) ==
   IF Toks(in).err THEN exit = 1
   ELSE \E o \in B!RefOutcomes(BatchIn(in)) :
          /\ stdout = Flatten([j \in DOMAIN o.execs |-> EchoLine(in, o.execs[j])])
          /\ exit = o.exit
+         /\ nlines = IF "t" \in DOMAIN in /\ in.t THEN Len(o.execs) ELSE 0      \* -t announces each of them
 \* stated for plain ASCII arguments (how other bytes are shown is the business of echo), no -s (the size of the
 \* command that is not there) and of course no child outcomes
 EchoDomain(in) ==
